@@ -13,6 +13,29 @@ HDR = r"internal/MeasureImplementation\.h$|/Simbody/src/.*\.h$"
 UPD, MARK, ISR, GET = "updDiscreteVarUpdateValue", "markDiscreteVarUpdateValueRealized", "isDiscreteVarUpdateValueRealized", "getDiscreteVarUpdateValue"
 
 
+# functions that use an update slot only to (re)build its structure; the values are produced later by the ensure.../realize functions
+INITIALISERS = {
+    "SimTK::CablePath::Impl::realizeInstance": "sizes and initial guesses of the path entries at Instance stage; nothing is marked realized on purpose",
+    "SimTK::CablePath::Impl::handleEvents": "event handler rewrites the entries' structure and copies them into the variables itself",
+}
+
+
+def is_wrapper(f):
+    """small accessor whose returned reference is the update slot"""
+    if len(list(f.calls())) > 5 or len(f.ret_events()) != 1:
+        return False
+    rv = f.ret_events()[0][2]["val"]
+    if rv is None:
+        return False
+    if sx_find(rv, lambda y: y[0] in ("call", "dcall") and str(y[1]).endswith(UPD)):
+        return True
+    v = var_of(rv)
+    for _, _, d in f.events(lambda d: d["k"] == "decl" and d["var"] == v and d["init"] is not None):
+        if sx_find(d["init"], lambda y: y[0] in ("call", "dcall") and str(y[1]).endswith(UPD)):
+            return True
+    return False
+
+
 def short(e):
     return str(e.get("fn", "")).split("::")[-1]
 
@@ -46,13 +69,15 @@ def run(chk, tier, overlays=()):
         upds = [(b, i, e) for b, i, e in f.calls() if short(e) == UPD]
         if not upds:
             continue
-        # accessor wrappers (updNextActiveContacts etc.) just return the slot: their callers are examined instead
-        if len(list(f.calls())) <= 4 and len(f.ret_events()) == 1 and f.ret_events()[0][2]["val"] is not None and \
-                sx_find(f.ret_events()[0][2]["val"], lambda y: y[0] in ("call", "dcall") and str(y[1]).endswith(UPD)):
+        # accessor wrappers (updNextActiveContacts, updPosEntry ...) just return the slot: their callers are examined instead
+        if is_wrapper(f):
             wrap = f
             for g in P.all_fns():
                 for b, i, e in g.calls():
                     if e.get("fid") == wrap.id:
+                        if g.name in INITIALISERS:
+                            chk.ok("PAIRCALL", "%s:%s:initialiser" % (g.name.replace("SimTK::", ""), idx_of(upds[0][2])), "%s:%d" % (g.file, e["line"]), INITIALISERS[g.name])
+                            continue
                         n += judge_site(chk, P, g, b, i, e, idx_of(upds[0][2]), via=wrap.name.split("::")[-1])
             continue
         for b, i, e in upds:
@@ -77,6 +102,12 @@ def judge_site(chk, P, f, b, i, e, ix, via=None):
     site = "%s:%d" % (f.file, e["line"])
     inst = "%s:%s%s" % (f.name.replace("SimTK::", ""), ix, (":via-" + via) if via else "")
     p = f.path_exists((b, i), "exit", lambda q: marks_index(P, q, ix))
+    if p is not None:
+        # helper that fills the slot for its caller: then every caller must mark after the call (one level)
+        callers = [(g, bb, ii, ee) for g in P.all_fns() for bb, ii, ee in g.calls() if ee.get("fid") == f.id and g is not f]
+        if callers and all(g.path_exists((bb, ii), "exit", lambda q: marks_index(P, q, ix)) is None for g, bb, ii, ee in callers):
+            chk.ok("PAIRCALL", inst + ":upd->mark-in-caller", site, "marked by every caller (%s)" % sorted(set(g.name.split("::")[-1] for g, _, _, _ in callers)))
+            return 1
     chk.judge(p is None, "PAIRCALL", inst + ":upd->mark", site, "update value of %s is written but not marked realized on some path: the auto-update swap would skip it" % ix, p)
     # early-return guard on the same index (if the function has such a guard at all)
     guards = [(bb, blk["term"]["cond"]) for bb, blk in f.blocks.items() if blk.get("term") and blk["term"].get("cond") and
